@@ -558,6 +558,129 @@ theorem SubsOK_laws : Laws SubsOK := by
     rw [b]
     exact h.2
 
+/-! ### third instance: the retained store of the index (`Topics.Retained`, whose `Len()` Go reports) has the
+    keys of the retained packets `rmsgs` the model keeps beside it -/
+
+theorem keys_assocSet {α β γ} [DecidableEq α] (m : List (α × β)) (m' : List (α × γ)) (k : α) (v : β) (v' : γ)
+    (h : m.map (·.1) = m'.map (·.1)) : (assocSet m k v).map (·.1) = (assocSet m' k v').map (·.1) := by
+  induction m generalizing m' with
+  | nil =>
+    cases m' with
+    | nil => rfl
+    | cons y ys => simp at h
+  | cons x xs ih =>
+    cases m' with
+    | nil => simp at h
+    | cons y ys =>
+      obtain ⟨a, b⟩ := x
+      obtain ⟨a', b'⟩ := y
+      simp only [List.map_cons, List.cons.injEq] at h
+      obtain ⟨h1, h2⟩ := h
+      have h1' : a = a' := h1
+      subst h1'
+      unfold assocSet
+      by_cases hk : a = k
+      · simp only [hk, if_true, List.map_cons, h2]
+      · simp only [hk, if_false, List.map_cons, ih ys h2]
+
+theorem keys_assocDel {α β γ} [DecidableEq α] (m : List (α × β)) (m' : List (α × γ)) (k : α)
+    (h : m.map (·.1) = m'.map (·.1)) : (assocDel m k).map (·.1) = (assocDel m' k).map (·.1) := by
+  induction m generalizing m' with
+  | nil =>
+    cases m' with
+    | nil => rfl
+    | cons y ys => simp at h
+  | cons x xs ih =>
+    cases m' with
+    | nil => simp at h
+    | cons y ys =>
+      obtain ⟨a, b⟩ := x
+      obtain ⟨a', b'⟩ := y
+      simp only [List.map_cons, List.cons.injEq] at h
+      obtain ⟨h1, h2⟩ := h
+      have h1' : a = a' := h1
+      subst h1'
+      have := ih ys h2
+      unfold assocDel at this ⊢
+      rw [List.filter_cons, List.filter_cons]
+      by_cases hk : a = k
+      · have hd : decide (a ≠ k) = false := by simp [hk]
+        simp only [hd, Bool.false_eq_true, if_false]
+        exact this
+      · have hd : decide (a ≠ k) = true := by simpa using hk
+        simp only [hd, if_true, List.map_cons, this]
+
+/-- the retained packets and the index's retained store have the same topics, in the same order -/
+def RetKeysOK (k : Core) : Prop := k.rmsgs.map (·.1) = k.topics.retained.map (·.1)
+
+theorem retainMessage_retained (x : Index) (topic payload : Str) (fl : Bool) :
+    (retainMessage x topic payload fl).1.retained =
+      if payload.length > 0 then assocSet x.retained topic { topic := topic, payload := payload, retain := fl }
+      else assocDel x.retained topic := by
+  unfold retainMessage
+  extract_lets p ns
+  obtain ⟨n, hn⟩ := getNode_setPath_self x.nodes p (pathFrom_ne_nil _ _)
+  rw [show getNode ns p = some n from hn]
+  simp only []
+  split <;> rfl
+
+theorem RetKeysOK_laws : Laws RetKeysOK := by
+  refine ⟨?_, ?_, ?_, ?_, ?_, ?_⟩
+  · intro s cid sb h
+    show s.rmsgs.map (·.1) = (subscribe s.topics cid sb).1.retained.map (·.1)
+    have : (subscribe s.topics cid sb).1.retained = s.topics.retained := by
+      unfold subscribe
+      extract_lets ls group p ns p2 ns2
+      (repeat' split) <;> rfl
+    rw [this]; exact h
+  · intro s f cid h
+    show s.rmsgs.map (·.1) = (unsubscribe s.topics f cid).1.retained.map (·.1)
+    have : (unsubscribe s.topics f cid).1.retained = s.topics.retained := by
+      unfold unsubscribe
+      extract_lets ls share p group
+      (repeat' split) <;> rfl
+    rw [this]; exact h
+  · intro s pk h
+    unfold retainMsg
+    split
+    · exact h
+    · show (if pk.payload.length > 0 then assocSet s.rmsgs pk.topic _ else assocDel s.rmsgs pk.topic).map (·.1) =
+        (retainMessage s.topics pk.topic pk.payload pk.retain).1.retained.map (·.1)
+      rw [retainMessage_retained]
+      split
+      · exact keys_assocSet _ _ _ _ _ h
+      · exact keys_assocDel _ _ _ h
+  · intro s now h
+    unfold tickRetained
+    show (tickRetained.tickRetainedLoop s now).rmsgs.map (·.1) =
+      (tickRetained.tickRetainedLoop s now).topics.retained.map (·.1)
+    unfold tickRetained.tickRetainedLoop
+    refine foldl_inv (fun (x : Server) => x.rmsgs.map (·.1) = x.topics.retained.map (·.1)) _ _ _ h ?_
+    intro b e hb
+    extract_lets pk expired enforced
+    split
+    · exact keys_assocDel _ _ _ hb
+    · exact hb
+  · intro s id sb h
+    show s.rmsgs.map (·.1) = (inlineSubscribe s.topics id sb).1.retained.map (·.1)
+    have : (inlineSubscribe s.topics id sb).1.retained = s.topics.retained := by
+      unfold inlineSubscribe
+      extract_lets p ns
+      split <;> rfl
+    rw [this]; exact h
+  · intro s id f h
+    show s.rmsgs.map (·.1) = (inlineUnsubscribe s.topics id f).1.retained.map (·.1)
+    have : (inlineUnsubscribe s.topics id f).1.retained = s.topics.retained := by
+      unfold inlineUnsubscribe
+      extract_lets p
+      split <;> rfl
+    rw [this]; exact h
+
+/-- after every history the retained packets and `Topics.Retained` have the same topics -/
+theorem RetKeys_run (caps : Caps) (ops : List Op) :
+    (run (init caps) ops).rmsgs.map (·.1) = (run (init caps) ops).topics.retained.map (·.1) :=
+  run_coreP RetKeysOK_laws _ ops rfl
+
 /-- the `subs` conjunct of `Counted` -/
 def CountedSubs (s : Server) : Prop := NodesWF s.topics.nodes ∧ s.info.subs = cnt s.topics.nodes
 
